@@ -18,9 +18,7 @@ CONSTANTS N
 VARIABLES small, k, prevSmall, stat, result
 vars == <<small, k, prevSmall, stat, result>>
 
-RECURSIVE BoolSeqs(_)
-BoolSeqs(n) == IF n = 0 THEN {<<>>} ELSE {Append(s, b) : s \in BoolSeqs(n - 1), b \in BOOLEAN}
-Init == /\ small \in BoolSeqs(N) /\ k = 0 /\ stat = "run" /\ result = 0
+Init == /\ small \in [1..N -> BOOLEAN] /\ k = 0 /\ stat = "run" /\ result = 0
         /\ prevSmall = FALSE              \* prev_err starts at 1 + tol, which is not below tol
 \* one rule with the verdict v of its area (RuleV is used as it is by the trace specification Trace_Gauss,
 \* where the verdict is computed from the recorded function values)
@@ -35,11 +33,7 @@ Rule == stat = "run" /\ k < N /\ RuleV(small[k + 1])
 Exhausted == stat = "run" /\ k = N /\ stat' = "err" /\ UNCHANGED <<small, k, prevSmall, result>>
 Next == Rule \/ Exhausted
 
-\* the first index with two consecutive agreements, 0 if none
-RECURSIVE First(_, _)
-First(s, j) == IF j > Len(s) THEN 0 ELSE IF j >= 2 /\ s[j] /\ s[j - 1] THEN j ELSE First(s, j + 1)
-ReturnsFirstAgreement == stat = "ok" => result = First(small, 1)
 NeverBeforeSecondRule == stat = "ok" => result >= 2
-ErrIffNoAgreement == stat = "err" => First(small, 1) = 0
-NoEarlyErr == (stat = "run" /\ k = N) => First(small, 1) = 0
+\* (the invariants that need the recursively defined "first agreement" are in MC_GaussStop; this module is kept free of
+\* RECURSIVE so that TLAPS can read it: StopLemmas proves NeverBeforeSecondRule for every N)
 =============================================================================
